@@ -41,8 +41,10 @@ theorem C03_server_recv_spec (H : Hdr) (toks : List Tok) (e : Ending) (fuel : Na
       (observe (documentedFrames .server H fuel toks e)) :=
   recv_spec .server H e toks fuel hwf hH hfuel
 
-/-- Client receive side: the same for `recv_response`. (FIN before HEADERS and PUSH_PROMISE are
-    left open by the property: the recogniser accepts anything there, R-03.) -/
+/-- Client receive side: the same for `recv_response`.  (FIN before HEADERS and PUSH_PROMISE sent
+    to a client are not fixed by the property text, R-03: the recogniser lists the alternatives the
+    RFC allows — `clientNoResponse`; connection error H3_FRAME_UNEXPECTED or H3_ID_ERROR — and the
+    model's answer, H3_FRAME_UNEXPECTED in both cases, is among them.) -/
 theorem C03_client_recv_spec (H : Hdr) (toks : List Tok) (e : Ending) (fuel : Nat)
     (hwf : ∀ tok ∈ toks, TokWF tok) (hH : HdrsOk H toks) (hfuel : answers toks e + 2 ≤ fuel) :
     (spec .client (toks.map kind) (stopOf e)).accepts
@@ -71,7 +73,19 @@ example : observe (documentedFrames .server allOk 20 [.headers [1], .data 4 [[8,
     { calls := [.head [1], .body [8, 9], .connError 262], connError := some 262 } := by decide
 example : observe (documentedFrames .server allOk 20 [.headers [1], .headers [2]] .open_) =
     { calls := [.head [1], .body [], .bodyEnd, .pending] } := by decide
-example : spec .client [.U] .fin = .any := by decide
+-- R-03 (client side): explicit alternatives, each of them a failure of the call — never "anything"
+example : spec .client [.U] .fin = clientNoResponse := by decide
+example : observe (documentedFrames .client allOk 20 [.unknown 0x21 []] .fin) =
+    { calls := [.connError 261], connError := some 261 } := by decide
+example : spec .client [.H [1], .P, .D [5]] .fin =
+    .oneOf [{ calls := [.head [1], .body [], .connError 0x105], connError := some 0x105 },
+            { calls := [.head [1], .body [], .connError 0x108], connError := some 0x108 }] := by decide
+example : ∀ o, (spec .client [.U] .fin).accepts o → ∃ c, o.calls = [.connError c] ∨ o.calls = [.streamError c] := by
+  intro o ho
+  simp only [spec, expected, atStop, clientNoResponse, Expect.accepts, List.flatMap_cons, List.flatMap_nil,
+    List.append_nil, List.cons_append, List.nil_append, List.mem_cons, List.not_mem_nil, or_false] at ho
+  rcases ho with rfl | rfl | rfl | rfl | rfl | rfl | rfl <;>
+    first | exact ⟨_, Or.inl rfl⟩ | exact ⟨_, Or.inr rfl⟩
 
 /-! non-vacuity with a FAITHFUL header oracle: the correspondence driver's own `hdrFor role`
     (`lean/H3/Drv/C03.lean`: what the real `qpack::decode_stateless` + `Header::try_from` +
